@@ -11,7 +11,7 @@ from execclient import Script, hx, by_index
 from runner import Failure, Outcome, h64
 from schema import (HAND, emit_schema, F_COMMENTS, F_IGNORE_UNKNOWN, F_NOCASE, F_MULTI, F_TITLE, F_LIST, F_KEYSTRVAL,
                     F_NODEFAULT, CB_PARSE, CB_VALID, CB_VALID2, CB_COMMENT, CB_PRINT,
-                    o_int, o_str, o_list, o_sec, o_func, o_ptr, o_float, o_bool)
+                    o_int, o_str, o_list, o_sec, o_func, o_ptr, o_float, o_bool, o_simple)
 
 REPO_SRC = os.path.join(os.environ.get("VERIF_REPO", "/repo"), "src", "confuse.c")
 _SITES = None
@@ -62,6 +62,7 @@ WL_SCHEMA = API_SCHEMA + [
     o_str("vs", "x", 0, CB_VALID2 | CB_PRINT),
     o_sec("multi", [o_int("m", 1), o_sec("deep", [o_str("z", "zz"), o_list("str", "zl", "{a}")], F_MULTI | F_TITLE)], F_MULTI),
     o_sec("kvm", [o_str("known", "k")], F_KEYSTRVAL | F_MULTI | F_TITLE),
+    o_simple("str", "ss", "init"), o_simple("int", "si", 5), o_simple("float", "sf", "1.5"), o_simple("bool", "sb", 0),
 ]
 HAND["c18wl"] = WL_SCHEMA
 
@@ -110,6 +111,11 @@ def workloads():
         ["rmsec", 1, hx("single")], ["setvalidate", 1, hx("tm|x"), 1], ["setvalidate2", 1, hx("multi|deep|z"), 1],
         ["printfunc", 1, hx("s"), 1], ["filter", 1, 2, hx("i"), hx("tm")], ["print", 1, 2], ["getopt", 1, hx("il"), 68],
         ["oprint", 68, 1], ["nprintvar", 68, 0]])
+    W["simple-options"] = (F_COMMENTS, [
+        ["parse_buf", 1, hx("ss = fromtext\nsi = 9\nsf = 2.5\nsb = on\n# note\nss = again\n")], ["setstr", 1, hx("ss"), 0, hx("v")],
+        ["setint", 1, hx("si"), 0, hx("3")], ["setmulti", 1, hx("ss"), 2, hx("g1"), hx("g2")], ["setmulti", 1, hx("ss"), 3, hx("g1"), hx("g2"), "~"],
+        ["setmulti", 1, hx("si"), 2, hx("1"), hx("bad")], ["getopt", 1, hx("ss"), 70], ["setopt", 1, 70, hx("viasetopt")],
+        ["getstr", 1, hx("ss"), 0], ["getint", 1, hx("si"), 0], ["setcomment", 1, hx("ss"), hx("c")], ["oprint", 70, 1]])
     W["tilde"] = (0, [["tilde", hx("~")], ["tilde", hx("~/x")], ["tilde", hx("~root")], ["tilde", hx("~root/x/y")],
                       ["tilde", hx("~nosuchuser/x")], ["tilde", hx("plain")], ["tilde", hx("")], ["searchpath", 1, hx("~/dir")],
                       ["searchpath", 1, hx("~nosuchuser")], ["findfile", 1, hx("x")]])
